@@ -16,7 +16,7 @@ import ast
 import itertools
 from typing import Any, Callable, Iterable
 
-from .astutil import norm
+from .astutil import dotted, norm
 from .srcmodel import Unsupported
 
 
@@ -95,6 +95,14 @@ class Evaluator:
         if isinstance(e, ast.NamedExpr):
             return self.ev(e.value)
         if isinstance(e, ast.Compare):
+            if len(e.ops) == 1 and isinstance(e.ops[0], (ast.Is, ast.IsNot)):
+                # a freshly constructed object (Capitalised callee) or a literal container is not None
+                l_, r_ = e.left, e.comparators[0]
+                for x_, y_ in ((l_, r_), (r_, l_)):
+                    if isinstance(y_, ast.Constant) and y_.value is None and (
+                            (isinstance(x_, ast.Call) and (dotted(x_.func) or "").split(".")[-1][:1].isupper() and not (dotted(x_.func) or "").split(".")[-1].isupper())
+                            or isinstance(x_, (ast.Tuple, ast.List, ast.Dict, ast.Set, ast.JoinedStr))):
+                        return isinstance(e.ops[0], ast.IsNot)
             if len(e.ops) == 1:
                 c = canon_cmp(e)
                 if c is not None and c[0] in self.assign:
